@@ -486,6 +486,14 @@ def run(ctx):
                                         "-nchain", 60 if quick else 3000, "-forcefilter"], timeout=3000)
         if ok:
             chains = ctx.read_jsonl(os.path.join(ctx.work, "chains.jsonl"))
+    # the real packet pipeline of the commands (address generator -> port nesting -> exclusion filter -> ARP stage ->
+    # NumCPU fillers -> merger) over a /21../22 with half of it excluded and a SLOW consumer, observed on the frames:
+    # what is finally put into a frame must still be what the filter saw
+    if rows and ctx.harness_build("c01"):
+        ok, _ = ctx.harness_run("c01", ["-out", "slow.jsonl", "-seed", ctx.seed + 12, "-nports", 0, "-nnested", 0, "-nchain", 0,
+                                        "-nframes", 4 if quick else 60, "-slowframes"], timeout=3000)
+        if ok:
+            chains += ctx.read_jsonl(os.path.join(ctx.work, "slow.jsonl"))
     for o in chains:
         ctx.count("chain:" + o["class"], ("chain", o["case_seed"]), nontrivial=o["nprobes"] >= 1,
                   sample={"kind": "chain", "class": o["class"], "exclusion": [[dotted(b), p] for b, p in (o.get("nets") or [])][:4],
@@ -497,14 +505,16 @@ def run(ctx):
             if per_class[c] <= 2:
                 small = {k: v for k, v in o.items() if k not in ("out", "probes", "lines_enc", "cache_enc", "pairs", "draws")}
                 path = ctx.write_replay("chain-%d" % o["case_seed"], {
-                    "property": "C02", "what": why, "input": {"kind": "chain", "case_seed": o["case_seed"], "big": bool(o.get("big"))},
+                    "property": "C02", "what": why, "input": {"kind": "chain", "case_seed": o["case_seed"], "big": bool(o.get("big")),
+                                                              "frames": bool(o.get("frames")), "slow": bool(o.get("slow")),
+                                                              "volume": o.get("volume", 0), "cmd": o.get("cmd")},
                     "observed": small, "replay_cmd": "bin/check C02 --replay <this file>"})
                 ctx.findings.append({"key": "chain:%s:exclude" % o["class"], "what": why, "replay": path})
     if per_class:
         ctx.info.append("failing inputs per class: %s" % json.dumps(per_class))
     if model_ok and chains and ctx.coq_model(["Spec/C01.vo"]):
         from checks import c01, tgtlib
-        tgtlib.evaluate(ctx, chains, c01.case_term, "From SX Require Import Base.Bytes Model.IPNet Model.Targets Spec.C13 Spec.C01.",
+        tgtlib.evaluate(ctx, [o for o in chains if o["nprobes"] <= 4000], c01.case_term, "From SX Require Import Base.Bytes Model.IPNet Model.Targets Spec.C13 Spec.C01.",
                         8 if quick else 32, c01.describe, c01.CODES)
     if model_ok and rows:
         nshards = 16 if quick else 64
@@ -540,6 +550,8 @@ def replay(ctx, path):
         if not ctx.harness_build("c01"):
             return 1
         arg = "chain:%d" % i["case_seed"] + (":big" if i.get("big") else "") + ":filter"
+        if i.get("frames"):
+            arg = "frames:%d:%d:%s" % (i["case_seed"], i.get("volume", 2000), i.get("cmd", "udp")) + (":slow" if i.get("slow") else "")
         ctx.harness_run("c01", ["-out", "one.jsonl", "-replay", arg], timeout=600)
         o = ctx.read_jsonl(os.path.join(ctx.work, "one.jsonl"))[0]
         why = judge_chain(o)
